@@ -51,6 +51,17 @@ impl std::str::FromStr for RegistryType {
     }
 }
 
+/// Whether `text` (the source text of a string node) has both its opening and its
+/// closing quote. While a value is being typed the closing quote is missing and the
+/// node is not a complete string yet.
+pub(crate) fn is_closed_string(text: &str) -> bool {
+    let mut chars = text.chars();
+    match (chars.next(), chars.next_back()) {
+        (Some(open), Some(close)) => (open == '"' || open == '\'') && open == close,
+        _ => false,
+    }
+}
+
 /// Detect the appropriate parser type based on URI
 pub fn detect_parser_type(uri: &str) -> Option<RegistryType> {
     if is_github_actions_workflow(uri) {
